@@ -462,6 +462,21 @@ def r2_eof_sentinel_checked(ctx):
     checked_helpers = set()
     # a helper whose every normal return is dominated by a non-eof outcome is a checking helper
     sites = 0
+    # the sentinel itself: `is ctx.eof` can only tell the end of the input from a form if no form
+    # can read as the sentinel -- it has to be an object private to the reader, never a value
+    # supplied by the caller (nil, a keyword ...), which text can spell
+    rd = fns.get("read")
+    tree = _tree(ctx)
+    ctor = [c for c in P.calls(rd) if P.un(c.func) == "ReaderContext"] if rd is not None else []
+    if not ctor:
+        raise AnalysisError("anchor vanished: reader.read builds no ReaderContext")
+    for c in ctor:
+        v = next((k.value for k in c.keywords if k.arg == "eof"), None)
+        src = P.module_assign(tree, v.id) if isinstance(v, ast.Name) else None
+        ok = src is not None and isinstance(src, ast.Call) and P.un(src.func) == "object" and v.id not in {a.arg for a in rd.args.args + rd.args.kwonlyargs}
+        ctx.ob("C16.R2", f"{RD}::read::the end-of-input sentinel is an object private to the reader", RD, c.lineno, ok,
+               "" if ok else f"the ReaderContext is built with eof={P.un(v) if v is not None else '<default None>'}: a form that reads as that value is taken for the end of the input",
+               witness="a file containing 'nil or `[1 ~nil] fails to load with UnexpectedEOFError; a top-level nil silently ends the loading of the file")
     for fname, fn in sorted(fns.items()):
         if fname in R2_EXEMPT:
             continue
@@ -1608,6 +1623,8 @@ def r9_end_of_input_is_classified_as_such(ctx):
 
 
 SELFTEST = [
+    {"name": "the caller's eof value is the reader's end-of-input marker (the repaired defect)", "file": RD, "expect": "C16.R2",
+     "old": "        eof=EOF,\n        features=features,", "new": "        eof=eof,\n        features=features,"},
     {"name": "reader macro prefix at the end of the input is a plain syntax error (the repaired defect)", "file": RD, "expect": "C16.R9",
      "old": "    if char == \"\":\n        raise ctx.eof_error(\"Unexpected EOF in reader macro\")\n", "new": ""},
     {"name": "#? at the end of the input is a plain syntax error (the repaired defect)", "file": RD, "expect": "C16.R9",
